@@ -4,26 +4,10 @@ import json, os, subprocess
 
 ROOT = os.path.dirname(os.path.dirname(os.path.abspath(__file__)))
 
-# id -> (technique, level text, level note, DESIGN ref)
+# id -> (technique, level text, level note, DESIGN ref); the table lives in tools/claims.json
 CLAIMED = {
-    "C01": (
-        "runtime crash monitor (catch_unwind panic hook + process-death attribution by a supervising parent) over exhaustive short token sequences, grammar programs, mutants and nesting stress",
-        "Every generated input is executed against all five real parsing entry points with overflow checks on; a panic or a death of the child process is observed directly and attributed to the input in flight. Exhaustive for <=3-token inputs over the token alphabet, sampled beyond. This is observation of executions, not a proof over all strings.",
-        "Trusts the supervisor's case-begin attribution, the 8 MB default stack, and that overflow-checks=on mirrors the repository's test profile.",
-        "DESIGN.md §4 C01",
-    ),
-    "C05": (
-        "value-first reference oracle: literal spellings generated from chosen values, parsed by the real parser, operand compared with the value (u128/i128 arithmetic and Rust's correctly rounded f64 parser as reference)",
-        "Every (position, spelling) case is executed through Program::from_str and the operand that comes out is compared with the mathematical value the spelling was generated from; boundary values around 2^31..2^64 in four radices in ~37 operand positions plus random spellings. Held-on-observed, not a proof over all spellings.",
-        "Trusts Rust's str::parse::<f64> as correctly rounded reference and the extraction of the operand by pattern matching on the public AST.",
-        "DESIGN.md §4 C05",
-    ),
-    "C06": (
-        "metamorphic name-bag oracle: a name written into each syntactic position must come back byte-identical from an independent walk over the parsed AST",
-        "Names from a mixed-case/dash/keyword-look-alike battery and random identifiers are placed in ~105 name positions (incl. multi-use programs); after parsing, the multiset of all names found in the AST must equal the template's fixed names plus the chosen spelling. Held-on-observed.",
-        "Trusts the AST walker (model/names.rs) to visit every public name-bearing field; DEFGATE AS SEQUENCE bodies are crate-private and not walked.",
-        "DESIGN.md §4 C06",
-    ),
+    k: (v["technique"], v["text"], v["note"], v["design_ref"])
+    for k, v in json.load(open(os.path.join(ROOT, "tools", "claims.json"))).items()
 }
 
 NOT_YET = "monitor designed in DESIGN.md §4 but not built in this revision of /verif; nothing is claimed for it yet"
